@@ -1,0 +1,17 @@
+// SPDX-FileCopyrightText: 2026 The Pion community <https://pion.ly>
+// SPDX-License-Identifier: MIT
+
+//go:build !verif
+
+// Package verifhook provides schedule yield points for verification harnesses.
+// Without the "verif" build tag every function is an empty stub.
+package verifhook
+
+// Func is the signature of the installed hook.
+type Func func(point string, obj any, arg int)
+
+// Set is a no-op without the verif tag.
+func Set(Func) {}
+
+// Yield is a no-op without the verif tag.
+func Yield(string, any, int) {}
